@@ -66,8 +66,13 @@ def _worker(args):
     return out
 
 
+class LeanLine(tuple):
+    """(check, {cls: shifts}, status, terms string) with the extra attribute `wf` (verdict of skelWFB)"""
+    wf = True
+
+
 def parse_lean(line):
-    """`check=1 msh=0:0,0;3:-1,0 ok 0:...|... 1:...` -> (check, {cls: shifts}, status, terms string)"""
+    """`check=1 msh=0:0,0;3:-1,0 wf=1 ok 0:...|... 1:...` -> (check, {cls: shifts}, status, terms string), .wf"""
     parts = line.split(" ")
     chk = parts[0] == "check=1"
     msh = {}
@@ -76,7 +81,14 @@ def parse_lean(line):
         for item in body.split(";"):
             c, _, ss = item.partition(":")
             msh[int(c)] = ss
-    return chk, msh, parts[2], " ".join(parts[3:])
+    k = 2
+    wf = True
+    if parts[k].startswith("wf="):
+        wf = parts[k] == "wf=1"
+        k += 1
+    out = LeanLine((chk, msh, parts[k], " ".join(parts[k + 1:])))
+    out.wf = wf
+    return out
 
 
 def py_shifts(line):
